@@ -75,21 +75,21 @@ def isPP (h : Heap) (e : Nat) : Bool := h.kind e = .V && h.getProp e Heap.tKey =
 
 /-- `Phrase.linkPengWithSubject(phrase, terminal, subject)` on `self`; the subject's record is `src`
     (Python reads `dyn.peng`).  Returns the assignments and `pt`. -/
-def linkPengWithSubject (h : Heap) (self : Nat) (phrase terminal : Kind) (subject : Nat) (src : Src) (dyn : Nat) :
+def linkPengWithSubject (h : Heap) (self : Nat) (phrase terminal : Kind) (subject : Nat) (dyn : Nat) :
     List Act × Option Nat :=
   if h.kind subject = .Pro && lookup cKey (h.node subject).props == some (.s (s "gen")) then ([], none)
   else match h.getFromPath self [([phrase], false), ([terminal], false)] with
     | some pt =>
       match h.parentOf pt with
-      | some pp => ([.setPeng true pp src dyn, .setPeng true pt src dyn], some pt)
-      | none => ([.setPeng true pt src dyn, .crash .attributeError].drop 1, some pt)
+      | some pp => ([.setPeng true pp dyn, .setPeng true pt dyn], some pt)
+      | none => ([.setPeng true pt dyn, .crash .attributeError].drop 1, some pt)
     | none =>
       match h.getFromPath self [([terminal], false)] with
-      | some pt => ([.setPeng true pt src dyn], some pt)
+      | some pt => ([.setPeng true pt dyn], some pt)
       | none => ([], none)
 
 /-- `PhraseFr.linkAttributes(vpv, vpcp, subject)` (PhraseFr.py:41-70); the English one is `pass` -/
-def linkAttributes (h : Heap) (lang : Lang) (vpv : Nat) (vpcp : Option Nat) (subject : Nat) (src : Src) (dyn : Nat) :
+def linkAttributes (h : Heap) (lang : Lang) (vpv : Nat) (vpcp : Option Nat) (subject : Nat) (dyn : Nat) :
     List Act :=
   match lang with
   | .en => []
@@ -98,19 +98,19 @@ def linkAttributes (h : Heap) (lang : Lang) (vpv : Nat) (vpcp : Option Nat) (sub
       match vpcp with
       | some cp =>
         (h.kids cp).flatMap (fun e =>
-          if h.kind e = .A then [.setPeng true e src dyn]
-          else if isPP h e then [.setPeng true e src dyn]
-          else if h.kind e = .AP then (linkPengWithSubject h e .AP .A subject src dyn).1
+          if h.kind e = .A then [.setPeng true e dyn]
+          else if isPP h e then [.setPeng true e dyn]
+          else if h.kind e = .AP then (linkPengWithSubject h e .AP .A subject dyn).1
           else if h.kind e = .VP then
             match h.getConst e [.V] with
-            | some v => if h.getProp v Heap.tKey == ppVal then [.setPeng true v src dyn] else []
+            | some v => if h.getProp v Heap.tKey == ppVal then [.setPeng true v dyn] else []
             | none => []
           else [])
       | none =>
         match h.parentOf vpv with
         | none => [.crash .attributeError]
         | some vp =>
-          let (acts, attrib) := linkPengWithSubject h vp .AP .A subject src dyn
+          let (acts, attrib) := linkPengWithSubject h vp .AP .A subject dyn
           match attrib with
           | some _ => acts
           | none =>
@@ -119,21 +119,21 @@ def linkAttributes (h : Heap) (lang : Lang) (vpv : Nat) (vpcp : Option Nat) (sub
             | none => acts ++ [.crash .other]
             | some vpvIdx =>
               acts ++ ((elems.drop (vpvIdx + 1)).flatMap (fun e =>
-                if isPP h e then [.setPeng true e src dyn] else []))
+                if isPP h e then [.setPeng true e dyn] else []))
     else []
 
 /-- `link_DAV_properties(e)` of PhraseEn (PhraseEn.py:8-19) / PhraseFr (PhraseFr.py:8-19) on an NP whose record
     is the head's (`src = slot head`, Python reads `self.peng`, `dyn = self`) -/
-def linkDAV (h : Heap) (lang : Lang) (self : Nat) (src : Src) (e : Nat) : Plan :=
+def linkDAV (h : Heap) (lang : Lang) (self : Nat) (e : Nat) : Plan :=
   match lang with
   | .en =>
-    if h.kind e = .D && h.lemmaOf e = s "no" then some [.writeN true src self (.s ['p'])]
-    else if h.kind e = .A || (h.kind e = .D && !h.hasProp e ownKey) then some [.setPeng true e src self]
+    if h.kind e = .D && h.lemmaOf e = s "no" then some [.writeN true self (.s ['p'])]
+    else if h.kind e = .A || (h.kind e = .D && !h.hasProp e ownKey) then some [.setPeng true e self]
     else some []
   | .fr =>
     if h.kind e = .A && h.lemmaOf e = s "quelques" then none
-    else if h.kind e = .A || h.kind e = .D then some [.setPeng true e src self]
-    else if isPP h e then some [.setPeng true e src self]
+    else if h.kind e = .A || h.kind e = .D then some [.setPeng true e self]
+    else if isPP h e then some [.setPeng true e self]
     else some []
 
 /-- concatenation of partial plans -/
@@ -156,20 +156,20 @@ def npHeadIndex (h : Heap) (p : Nat) : Nat :=
   | none => hi
 
 /-- `link_subj_obj_subordinate(pro, v, subject)` (PhraseEn.py:26-29, PhraseFr.py:24-40) on the NP `p` -/
-def linkSubjObjSubordinate (h : Heap) (lang : Lang) (p : Nat) (src : Src) (pro v : Nat) (subject : Option Nat) :
+def linkSubjObjSubordinate (h : Heap) (lang : Lang) (p : Nat) (pro v : Nat) (subject : Option Nat) :
     List Act :=
   let vpcp := h.getFromPath p [([.VP], false), ([.CP], false)]
   match lang with
   | .en =>
     if relProsEn.contains (h.lemmaOf pro) then
-      [.setPeng true v src p] ++ linkAttributes h .en v vpcp p src p
+      [.setPeng true v p] ++ linkAttributes h .en v vpcp p p
     else []
   | .fr =>
     let lem := h.lemmaOf pro
     if (lem = s "qui" || lem = s "lequel") && subject == some pro then
-      [.setPeng true v src p] ++ (if lem = s "lequel" then [.setPeng true pro src p] else [])
-        ++ linkAttributes h .fr v vpcp p src p
-    else if lem = s "duquel" || lem = s "auquel" then [.setPeng true pro src p]
+      [.setPeng true v p] ++ (if lem = s "lequel" then [.setPeng true pro p] else [])
+        ++ linkAttributes h .fr v vpcp p p
+    else if lem = s "duquel" || lem = s "auquel" then [.setPeng true pro p]
     else if lem = s "que" then
       [.setCod v p] ++
         (if h.lemmaOf v = s "avoir" then
@@ -193,20 +193,19 @@ def planNP (h : Heap) (p : Nat) : Plan :=
   match els[hi]? with
   | none => some []
   | some hd =>
-    let src := Src.slot hd
     let perChild : List Plan := els.zipIdx.map (fun (e, i) =>
       if i = hi then some []
       else if h.kind e = .NO && i < hi then
-        some [.writeN true src p (h.gramNumber e), .copyG true e src p]
+        some [.writeN true p (h.gramNumber e), .copyG true e p]
       else if h.isA e [.D, .A, .V] then
-        Plan.cat [linkDAV h lang p src e,
+        Plan.cat [linkDAV h lang p e,
           some (if h.kind e = .D && lang = .en && h.lemmaOf e = s "a" && h.getProp hd cntKey == .s (s "no")
                 then [.morphoError e] else [])]
       else if h.kind e = .CP then
-        some ([.setPeng true e src p] ++
-          (h.kids e).flatMap (fun el => if h.isA el [.A, .NO] then [.setPeng true el src p] else []))
+        some ([.setPeng true e p] ++
+          (h.kids e).flatMap (fun el => if h.isA el [.A, .NO] then [.setPeng true el p] else []))
       else if h.isA e [.AP, .AdvP] then
-        Plan.cat ((h.kids e).map (fun el => linkDAV h lang p src el))
+        Plan.cat ((h.kids e).map (fun el => linkDAV h lang p el))
       else some [])
     let rel : List Act :=
       match h.getFromPath p [([.S, .SP], false), ([.Pro], false)] with
@@ -220,22 +219,22 @@ def planNP (h : Heap) (p : Nat) : Plan :=
           | some v =>
             match h.subject sp with
             | none => [.crash .attributeError]
-            | some subject => linkSubjObjSubordinate h lang p src pro v subject
-    Plan.cat ([some [.guardHas hd, .setPeng true p src hd]] ++ perChild ++ [some rel])
+            | some subject => linkSubjObjSubordinate h lang p pro v subject
+    Plan.cat ([some [.guardHas hd, .setPeng true p hd]] ++ perChild ++ [some rel])
 
 /-- VP branch (Phrase.py:170-175) -/
 def planVP (h : Heap) (p : Nat) : Plan :=
   let hi := (h.getIndex p [.VP, .V]).getD 0
   match (h.kids p)[hi]? with
   | none => some []
-  | some hd => some [.setPeng true p (.slot hd) hd, .setTaux false p hd]
+  | some hd => some [.setPeng true p hd, .setTaux false p hd]
 
 /-- AdvP / PP / AP branch (Phrase.py:176-179) -/
 def planXP (h : Heap) (p : Nat) (termKind : Kind) : Plan :=
   let hi := (h.getIndex p [h.kind p, termKind]).getD 0
   match (h.kids p)[hi]? with
   | none => some []
-  | some hd => some [.setPeng false p (.slot hd) hd]
+  | some hd => some [.setPeng false p hd]
 
 /-- `should_try_another_subject(lemma, iSubj)` -/
 def shouldTryAnotherSubject (h : Heap) (lang : Lang) (p : Nat) (lem : Str) (iSubj : Nat) : Bool :=
@@ -280,13 +279,12 @@ def planS (h : Heap) (p : Nat) : Plan :=
         match chosen with
         | none => some pre
         | some (subject, sacts) =>
-          let src := Src.slot subject
-          let (lacts, vpv2) := linkPengWithSubject h p .VP .V subject src subject
+          let (lacts, vpv2) := linkPengWithSubject h p .VP .V subject subject
           let tail : List Act :=
             match vpv2 with
             | some v =>
               [.setTaux true p v] ++
-                linkAttributes h lang v (h.getFromPath p [([.VP], false), ([.CP], false)]) subject src subject
+                linkAttributes h lang v (h.getFromPath p [([.VP], false), ([.CP], false)]) subject subject
             | none =>
               let cvs : List Act :=
                 match h.getFromPath p [([.CP], false), ([.VP], false)] with
@@ -295,7 +293,7 @@ def planS (h : Heap) (p : Nat) : Plan :=
                   match h.getConst p [.CP] with
                   | none => []
                   | some cp => (h.kids cp).flatMap (fun e =>
-                      if (h.kind e).isPhrase then (linkPengWithSubject h e .VP .V subject src subject).1 else [])
+                      if (h.kind e).isPhrase then (linkPengWithSubject h e .VP .V subject subject).1 else [])
               let cco : List Act :=
                 match lang with
                 | .en => []
@@ -312,7 +310,7 @@ def planS (h : Heap) (p : Nat) : Plan :=
                     | none => []
                   | _, _ => []
               cvs ++ cco
-          some (pre ++ sacts ++ [.setPeng true p src subject] ++ lacts ++ tail)
+          some (pre ++ sacts ++ [.setPeng true p subject] ++ lacts ++ tail)
 
 /-- `Phrase.linkProperties` -/
 def planPhrase (h : Heap) (p : Nat) : Plan :=
@@ -347,24 +345,23 @@ def termLemma (h : Heap) (d : Nat) : Str :=
   | some t => h.lemmaOf t
   | none => []
 
-/-- the contribution of one dependent `dep` to `Dependent.linkProperties` of `p`; returns the assignments and the
-    new resolved source of `headTerm.peng` -/
-def planDepStep (h : Heap) (p headTerm : Nat) (selfSrc : Src) (headSrc : Src) (dep : Nat) : Option (List Act × Src) :=
+/-- the contribution of one dependent `dep` to `Dependent.linkProperties` of `p`; returns the assignments -/
+def planDepStep (h : Heap) (p headTerm : Nat) (dep : Nat) : Option (List Act) :=
   let lang := (h.node p).lang
   match (h.node dep).term with
   | none => none
   | some depTerm =>
     match h.kind dep with
     | .subj =>
-      if h.kind headTerm = .V then some ([.setPeng true headTerm (.slot dep) dep], .slot dep) else some ([], headSrc)
+      if h.kind headTerm = .V then some [.setPeng true headTerm dep] else some []
     | .det =>
       if h.kind depTerm = .D then
-        some ([.setPeng false depTerm selfSrc p] ++
+        some ([.setPeng false depTerm p] ++
           (if lang = .en && h.lemmaOf depTerm = s "a" && h.getProp headTerm cntKey == .s (s "no")
-           then [.morphoError depTerm] else []), headSrc)
+           then [.morphoError depTerm] else []))
       else if h.kind depTerm = .NO then
-        some ([.setPeng true depTerm headSrc headTerm, .writeN true headSrc depTerm (h.gramNumber depTerm)], headSrc)
-      else some ([], headSrc)
+        some ([.setPeng true depTerm headTerm, .writeN true depTerm (h.gramNumber depTerm)])
+      else some ([])
     | .mod | .comp =>
       if h.kind depTerm = .A || isPP h depTerm then
         let la : List Act :=
@@ -375,11 +372,11 @@ def planDepStep (h : Heap) (p headTerm : Nat) (selfSrc : Src) (headSrc : Src) (d
               match depFindIndex h p (fun d0 => h.kind d0 = .subj && termKindIs h d0 [.N, .Pro]) with
               | some iSubj =>
                 match (h.kids p)[iSubj]? with
-                | some sd => [.setPeng true depTerm (.slot sd) sd]
+                | some sd => [.setPeng true depTerm sd]
                 | none => []
               | none => []
             else []
-        some ([.setPeng false depTerm selfSrc p] ++ la, headSrc)
+        some ([.setPeng false depTerm p] ++ la)
       else if h.kind depTerm = .V then
         let rels := match lang with | .en => relProsEn | .fr => relProsFr
         let iRel := depFindIndex h dep (fun dI => h.isA dI [.subj, .comp, .mod] && termKindIs h dI [.Pro] &&
@@ -388,7 +385,7 @@ def planDepStep (h : Heap) (p headTerm : Nat) (selfSrc : Src) (headSrc : Src) (d
           match iRel with
           | some i =>
             (match (h.kids dep)[i]? with
-             | some dr => if h.kind dr = .subj then [.setPeng true depTerm selfSrc p] else []
+             | some dr => if h.kind dr = .subj then [.setPeng true depTerm p] else []
              | none => []) ++
             (match lang with
              | .en => []
@@ -407,35 +404,35 @@ def planDepStep (h : Heap) (p headTerm : Nat) (selfSrc : Src) (headSrc : Src) (d
         let a2 : List Act :=
           match lang with
           | .en => []
-          | .fr => if h.getProp depTerm Heap.tKey == ppVal then [.setPeng true depTerm selfSrc p] else []
-        some (a1 ++ a2, headSrc)
+          | .fr => if h.getProp depTerm Heap.tKey == ppVal then [.setPeng true depTerm p] else []
+        some (a1 ++ a2)
       else if h.kind depTerm = .Pro &&
           (match lang with | .en => relPropagateEn | .fr => relPropagateFr).contains (h.lemmaOf depTerm) then none
-      else some ([], headSrc)
-    | .root => some ([], headSrc)
+      else some ([])
+    | .root => some ([])
     | .coord =>
       match (h.kids dep).head? with
-      | none => some ([], headSrc)
+      | none => some ([])
       | some firstDep =>
-        if h.kind firstDep = .subj then some ([.setPeng true dep selfSrc p], headSrc)
-        else if h.kind firstDep = .det then some ([.setPeng true dep headSrc headTerm], headSrc)
+        if h.kind firstDep = .subj then some ([.setPeng true dep p])
+        else if h.kind firstDep = .det then some ([.setPeng true dep headTerm])
         else if h.isA firstDep [.mod, .comp] && termKindIs h firstDep [.V, .A] then
-          some ([.setPeng false dep headSrc headTerm] ++
+          some ([.setPeng false dep headTerm] ++
             (h.kids dep).flatMap (fun dI =>
-              [.setPeng false dI headSrc headTerm] ++
+              [.setPeng false dI headTerm] ++
                 (match (h.node dI).term with
-                 | some t => [.setPeng false t headSrc headTerm]
-                 | none => [.crash .attributeError])), headSrc)
-        else some ([], headSrc)
+                 | some t => [.setPeng false t headTerm]
+                 | none => [.crash .attributeError])))
+        else some ([])
     | _ => none
 
-def planDepLoop (h : Heap) (p headTerm : Nat) (selfSrc : Src) : Src → List Nat → Plan
-  | _, [] => some []
-  | headSrc, dep :: rest =>
-    match planDepStep h p headTerm selfSrc headSrc dep with
+def planDepLoop (h : Heap) (p headTerm : Nat) : List Nat → Plan
+  | [] => some []
+  | dep :: rest =>
+    match planDepStep h p headTerm dep with
     | none => none
-    | some (acts, headSrc') =>
-      match planDepLoop h p headTerm selfSrc headSrc' rest with
+    | some acts =>
+      match planDepLoop h p headTerm rest with
       | none => none
       | some more => some (acts ++ more)
 
@@ -447,11 +444,10 @@ def planDep (h : Heap) (p : Nat) : Plan :=
   else match (h.node p).term with
     | none => none
     | some headTerm =>
-      if h.kind p = .coord then
-        match planDepLoop h p headTerm .fresh .fresh deps with
-        | none => none
-        | some acts => some ([.fresh p false, .setPeng true headTerm .fresh p] ++ acts)
-      else planDepLoop h p headTerm (.slot p) (.slot headTerm) deps
+      match planDepLoop h p headTerm deps with
+      | none => none
+      | some acts =>
+        some ((if h.kind p = .coord then [.fresh p false, .setPeng true headTerm p] else []) ++ acts)
 
 /-- `x.linkProperties()` -/
 def plan (h : Heap) (p : Nat) : Plan :=
